@@ -30,7 +30,7 @@ func init() {
 			"Oracle: MarshalTokenKeyPSSOID == DER assembled byte by byte by the reference (RFC 9578 RSASSA-PSS AlgorithmIdentifier, own length encoder) and anchored by the Rust vectors' pkS; the legacy form == the reference rsaEncryption SPKI and is parsed by crypto/x509 to the same (N, E); UnmarshalTokenKey inverts both forms. " +
 			"Key ids: TokenKeyID() of type 1/2/3/5 issuers == SHA-256(reference serialization) and requests of types 1, 2, 5 carry byte 31 of it (keys whose id has different first and last bytes); type-3 requests carry SHA-256(reference EncapKey encoding) as name key id. " +
 			"distinct_nontrivial = distinct (modulus byte length, top bit, exponent class) and (issuer type, key) keys",
-		Floors:      []string{"pss_der_equals_reference", "legacy_der_equals_reference", "unmarshal_inverts_pss", "unmarshal_inverts_legacy", "x509_accepts_legacy", "rust_pks_anchor", "key_id_type1", "key_id_type2", "key_id_type3", "key_id_type5", "truncated_key_id_last_byte", "name_key_id"},
+		Floors:      []string{"pss_der_equals_reference", "legacy_der_equals_reference", "unmarshal_inverts_pss", "unmarshal_inverts_legacy", "x509_accepts_legacy", "rust_pks_anchor", "key_id_type1", "key_id_type2", "key_id_type3", "key_id_type5", "truncated_key_id_last_byte", "name_key_id", "name_key_id_decoded_suites"},
 		Assumptions: []string{"encoding needs no factorisation: synthetic moduli are arbitrary positive integers", "go-hpke's X25519 key derivation and crypto/x509 are trusted"},
 		Run:         runC18,
 	})
@@ -300,6 +300,25 @@ func runC18(c *core.Ctx) {
 			if err != nil || !bytes.Equal(st2.Request().NameKeyID, nk2[:]) {
 				c.Violation("namekeyid:seeded-key", "a type-3 request does not carry SHA-256 of the reference EncapKey encoding", d)
 				return
+			}
+			// name keys received as bytes with every KDF/AEAD id the HPKE library knows: the request must carry
+			// SHA-256 of exactly the bytes the client was given
+			for kdf := byte(1); kdf <= 3; kdf++ {
+				for aead := byte(1); aead <= 3; aead++ {
+					b := clone(enc)
+					b[36], b[38] = kdf, aead
+					nk, err := type3.UnmarshalEncapKey(clone(b))
+					if err != nil {
+						continue
+					}
+					st3, err := cl.CreateTokenRequest(r.Bytes(8), r.Bytes(32), ScalarBytes(r, curve.Params().N, 48), iss3.TokenKeyID(), iss3.TokenKey(), "origin.example", nk)
+					want := sha256.Sum256(b)
+					if err != nil || !bytes.Equal(st3.Request().NameKeyID, want[:]) {
+						c.Violation("namekeyid:decoded-key", "a type-3 request made with a name key decoded from bytes does not carry SHA-256 of those bytes", map[string]any{"name_key": core.Hex(b), "kdf_id": kdf, "aead_id": aead})
+						return
+					}
+					c.Class("name_key_id_decoded_suites")
+				}
 			}
 			c.Class("name_key_id")
 			c.Distinctf("keyid:%d", i)
